@@ -16,10 +16,13 @@ package control
 
 import (
 	"bytes"
+	"encoding/json"
 	"errors"
+	"fmt"
 	"math/rand/v2"
 	"net"
 	"net/netip"
+	"strings"
 	"sync"
 	"sync/atomic"
 	"syscall"
@@ -160,35 +163,106 @@ func (x *c05Run) noteTrickleAtComposition() {
 	x.m.Count("trickle_first_bytes_"+x.cs.Pre, 1)
 	if to := time.Now(); c05HB.settle() && c05HB.maxLag(x.t0, to) < c05LagLimit {
 		x.m.Count("trickle_detection_delay_judged", 1)
+		c05TrickleJudged.Add(1)
 	}
 }
 
-// trickleDelayRepeats: a composition that outlasted its windows + 2 s on a trickled first flight is
-// only believed if it does so again on a second connection carrying the same flight with the same
-// spacing (a logic error does not depend on the run; a starved process does), again with quiet lag
-// probes. Only the composition is repeated; nothing is relayed.
-func (x *c05Run) trickleDelayRepeats(pre []byte, dst netip.AddrPort, rr *bpfRoutingResult) bool {
+// A composition that outlasted its windows + 2 s on a trickled first flight is a candidate only. It
+// is judged at the end of the run, when the bulk traffic is over: the composition is repeated on a
+// fresh connection carrying the same flight with the same spacing (a logic error does not depend on
+// the run; a starved process does) and the verdict is drawn from that repetition alone - it
+// outlasted its windows + 2 s again while the lag probes were quiet and every gap between two
+// fragments stayed below the window. A repetition spoilt by scheduler lag is tried again (three
+// attempts); only the composition is repeated, nothing is relayed.
+
+// c05TrickleJudged: trickled flights whose detection phase ran while the lag probes were quiet
+var c05TrickleJudged atomic.Int64
+
+type c05TrickleCand struct {
+	x   *c05Run
+	pre []byte
+	dst netip.AddrPort
+	rr  *bpfRoutingResult
+}
+
+type c05TrickleCandList struct {
+	mu   sync.Mutex
+	list []*c05TrickleCand
+}
+
+var c05TrickleCands c05TrickleCandList
+
+func (l *c05TrickleCandList) add(x *c05Run, pre []byte, dst netip.AddrPort, rr *bpfRoutingResult) {
+	x.m.Count("trickle_detection_delay_candidate", 1)
+	l.mu.Lock()
+	l.list = append(l.list, &c05TrickleCand{x: x, pre: pre, dst: dst, rr: rr})
+	l.mu.Unlock()
+}
+
+func (l *c05TrickleCandList) judge(m *vk.Monitor) {
+	l.mu.Lock()
+	pending := l.list
+	l.list = nil
+	l.mu.Unlock()
+	for attempt := 0; attempt < 3 && len(pending) > 0; attempt++ {
+		var mu sync.Mutex
+		var again []*c05TrickleCand
+		var wg sync.WaitGroup
+		for _, c := range pending {
+			wg.Add(1)
+			go func() {
+				defer wg.Done()
+				switch c.x.trickleDelayRepeats(c.pre, c.dst, c.rr, attempt) {
+				case 1:
+					c.x.violate("detection-delay/"+c.x.comp.outcome, fmt.Sprintf("protocol detection delayed the connection by %.0f ms, windows sum to %.0f ms",
+						ms(int64(c.x.composeDur)), ms(int64(c.x.comp.windows))), c.x.trickleWitness())
+				case 0:
+					m.Count("trickle_detection_delay_not_repeated", 1)
+				default:
+					mu.Lock()
+					again = append(again, c)
+					mu.Unlock()
+				}
+			}()
+		}
+		wg.Wait()
+		pending = again
+	}
+	if len(pending) > 0 {
+		m.Count("trickle_detection_delay_candidate_unjudged_scheduler_lag", int64(len(pending)))
+	}
+}
+
+// trickleDelayRepeats: 1 = the repetition outlasted its windows + 2 s (judged), 0 = it did not,
+// -1 = no verdict (harness error, scheduler lag, a gap that reached the window).
+func (x *c05Run) trickleDelayRepeats(pre []byte, dst netip.AddrPort, rr *bpfRoutingResult, attempt int) int {
 	x.m.Count("trickle_detection_delay_candidate_rechecked", 1)
 	ln, err := c05ListenLoopback()
 	if err != nil {
-		return false
+		return -1
 	}
 	defer ln.Close()
 	cli, err := net.DialTCP("tcp", nil, ln.Addr().(*net.TCPAddr))
 	if err != nil {
-		return false
+		return -1
 	}
 	defer cli.Close()
 	lConn, err := ln.AcceptTCP()
 	if err != nil {
-		return false
+		return -1
 	}
 	defer lConn.Close()
 	cuts := c05TrickleCuts(x.cs, pre)
+	window := time.Duration(x.cs.WindowMs) * time.Millisecond
+	if x.cs.Stack == "dns53" {
+		window = TCPDNSFirstReadTimeout
+	}
 	stop := make(chan struct{})
 	defer close(stop)
+	var wideGap atomic.Bool
 	go func() {
 		from := 0
+		var last time.Time
 		for i, to := range cuts {
 			if i > 0 {
 				select {
@@ -200,12 +274,17 @@ func (x *c05Run) trickleDelayRepeats(pre []byte, dst netip.AddrPort, rr *bpfRout
 			if _, err := cli.Write(pre[from:to]); err != nil {
 				return
 			}
+			now := time.Now()
+			if i > 0 && now.Sub(last) >= window {
+				wideGap.Store(true)
+			}
+			last = now
 			from = to
 		}
 	}()
-	// another destination address: the first attempt may have left an entry in the negative sniff cache
+	// another destination address: an earlier attempt may have left an entry in the negative sniff cache
 	a := dst.Addr().As4()
-	a[1] = 6
+	a[1] = byte(6 + attempt)
 	var comp c05Composed
 	c0 := time.Now()
 	_, _ = c05Compose(x.cp, lConn, netip.AddrPortFrom(netip.AddrFrom4(a), dst.Port()), rr, &comp)
@@ -213,12 +292,14 @@ func (x *c05Run) trickleDelayRepeats(pre []byte, dst netip.AddrPort, rr *bpfRout
 	if comp.sniffer != nil {
 		_ = comp.sniffer.Close()
 	}
-	x.ev("recheck: second composition over the same trickled flight took %.0f ms (windows %.0f ms, outcome %s)", ms(int64(dur)), ms(int64(comp.windows)), comp.outcome)
-	if dur > comp.windows+2*time.Second && x.calm(c0) {
-		return true
+	x.ev("recheck %d: composition over the same trickled flight on a fresh connection took %.0f ms (windows %.0f ms, outcome %s)", attempt+1, ms(int64(dur)), ms(int64(comp.windows)), comp.outcome)
+	if !x.calm(c0) || wideGap.Load() {
+		return -1
 	}
-	x.m.Count("trickle_detection_delay_not_repeated_unjudged", 1)
-	return false
+	if dur > comp.windows+2*time.Second {
+		return 1
+	}
+	return 0
 }
 
 func (x *c05Run) trickleWitness() map[string]any {
@@ -229,26 +310,65 @@ func (x *c05Run) trickleWitness() map[string]any {
 		"fragments_sent_when_detection_ended": x.trk.sentAtCompose, "largest_gap_ms": ms(int64(x.trk.maxGap))}}
 }
 
+// watchdogExpired: the case did not finish within 120 s. That alone is INCONCLUSIVE. One situation
+// is judged: dae's detection steps (DNS-over-TCP probe, prefetch, sniffing: windows of at most 5 s +
+// 2 x 400 ms here, armed when the step starts) were entered more than 100 s ago and have still not
+// returned, and the lag probes saw no stall during the last 20 s (looked at up to three times, 20 s
+// apart) - an interval in which every one of those windows fits several times over, so a detection
+// step that honours its deadline would have returned inside it however the machine behaved before. Nothing of the composition's own state is
+// read here (the step is still running).
+func (x *c05Run) watchdogExpired() {
+	x.evMu.Lock()
+	evs := append([]string(nil), x.events...)
+	x.evMu.Unlock()
+	cj, _ := json.Marshal(x.cs)
+	fmt.Printf("C05 watchdog: case %s\n  %s\n", cj, strings.Join(evs, "\n  "))
+	start := x.composeStartNs.Load()
+	for attempt := 0; start != 0 && x.composeEndNs.Load() == 0 && time.Since(time.Unix(0, start)) > 100*time.Second; attempt++ {
+		now := time.Now()
+		if c05HB.settle() && x.composeEndNs.Load() == 0 && c05HB.maxLag(now.Add(-20*time.Second), now) < c05LagLimit {
+			kind := c05If(x.cs.Stack == "dns53", "dns53", "sniff")
+			sig := "detection-delay/never-ended/" + kind
+			c05SigMu.Lock()
+			c05SigSeen[sig]++
+			first := c05SigSeen[sig] == 1
+			c05SigMu.Unlock()
+			if first {
+				x.m.Violation(sig, fmt.Sprintf("protocol detection entered %.0f s ago has not returned (its windows sum to at most %.1f s)",
+					now.Sub(time.Unix(0, start)).Seconds(), (TCPDNSFirstReadTimeout+2*x.cp.sniffingTimeout).Seconds()),
+					map[string]any{"case": x.cs, "events": evs, "detection_running_for_ms": ms(int64(now.Sub(time.Unix(0, start))))})
+			}
+			return
+		}
+		if attempt == 2 {
+			x.m.Count("detection_still_running_at_watchdog_unjudged_scheduler_lag", 1)
+			break
+		}
+		time.Sleep(20 * time.Second) // the last 20 s were not quiet: look at the next 20 s
+	}
+	x.m.Inconclusive("case %d watchdog (120 s)", x.cs.ID)
+}
+
 // ---------------------------------------------------------------------------
 // case generation for the two classes
 
-func c05GenEdgeCases(r *rand.Rand, firstID int) []*c05Case {
+func c05EdgeBase(r *rand.Rand, id *int) *c05Case {
+	cs := &c05Case{ID: *id, CaseSeed: r.Uint64(), RConn: c05Pick(r, "tcp", "tcp", "tcp", "opaque"),
+		SegC: c05Pick(r, "one", "mss", "rand"), SegS: c05Pick(r, "one", "mss", "rand"),
+		SrvStart: c05Pick(r, "immediate", "after-first-byte"), Gap: "none"}
+	*id++
+	cs.Close = c05Pick(r, "never", "client-first", "server-first", "simul")
+	cs.Eager = cs.Close != "never" && r.IntN(3) == 0
+	return cs
+}
+
+// c05GenTrickleSniff: trickled first flights, sniffing window. Every gap is ~0.6 window; the flight
+// lasts 2 windows + 3.5 s, i.e. 1.5 s beyond what the detection-delay verdict tolerates.
+func c05GenTrickleSniff(r *rand.Rand, id *int, n int) []*c05Case {
 	var out []*c05Case
-	id := firstID
-	base := func() *c05Case {
-		cs := &c05Case{ID: id, CaseSeed: r.Uint64(), RConn: c05Pick(r, "tcp", "tcp", "tcp", "opaque"),
-			SegC: c05Pick(r, "one", "mss", "rand"), SegS: c05Pick(r, "one", "mss", "rand"),
-			SrvStart: c05Pick(r, "immediate", "after-first-byte"), Gap: "none"}
-		id++
-		cs.Close = c05Pick(r, "never", "client-first", "server-first", "simul")
-		cs.Eager = cs.Close != "never" && r.IntN(3) == 0
-		return cs
-	}
-	// trickled first flights, sniffing window. Every gap is ~0.6 window; the flight lasts
-	// 2 windows + 3.5 s, i.e. 1.5 s beyond what the detection-delay verdict tolerates.
 	sniffPre := []string{"tls-small", "tls-large", "tlsish-garbage", "http-longhost"}
-	for i, n := 0, vk.Scale(12, 80); i < n; i++ {
-		cs := base()
+	for i := 0; i < n; i++ {
+		cs := c05EdgeBase(r, id)
 		cs.Stack, cs.Arrival = "sniff", "trickle"
 		cs.Pre = sniffPre[i%len(sniffPre)]
 		cs.WindowMs = c05Pick(r, 150, 400, 400)
@@ -259,6 +379,13 @@ func c05GenEdgeCases(r *rand.Rand, firstID int) []*c05Case {
 		cs.DialDelayMs = c05Pick(r, 0, 3)
 		out = append(out, cs)
 	}
+	return out
+}
+
+func c05GenEdgeCases(r *rand.Rand, firstID int) []*c05Case {
+	id := firstID
+	base := func() *c05Case { return c05EdgeBase(r, &id) }
+	out := c05GenTrickleSniff(r, &id, vk.Scale(12, 80))
 	// trickled first flights, DNS-over-TCP detection window (5 s) on port 53: frames that are not
 	// client queries (a query would be answered by dae itself)
 	dnsPre := []string{"bad-parse", "dns-response", "partial-frame"}
